@@ -129,6 +129,9 @@ var c15Srcs = map[string]string{
 	"rename-tag-onto-field": "rename(f1, tg)\np(f1, tg)\nset_tag(message)\nrename(f2, message)\n",
 	"rename-chain":      "add_key(x1, 1)\nadd_key(x2, \"two\")\nset_tag(x3, \"three\")\nrename(x2, x1)\nrename(x3, x2)\nrename(f1, x3)\ndrop_key(f1)\np(x1, x2, x3, f1)\n",
 	"many-keys":         "add_key(n1, 5)\nadd_key(n2, 5)\nset_tag(n3, \"t\")\nadd_key(n4, 2.5)\nadd_key(n5, true)\nset_tag(n6, \"u\")\np(n1, n2, n3, n4, n5, n6, f1, f2, tg, message)\ncast(n2, \"str\")\ncast(n4, \"int\")\nrename(n7, n3)\np(get_key(n2), get_key(n4), get_key(n7), get_key(n5))\n",
+	// values built from constant literals and then written in place: a second run of the same loaded script starts from the literals again
+	"nested-literals":      "a = [[1, 2], [3]]\na[0][0] += 10\nm = {\"k\": [1, 2], \"j\": {\"d\": 0}}\nm[\"k\"][1] = m[\"k\"][1] * 2\nm[\"j\"][\"d\"] += 1\nfor i = 0; i < 2; i = i + 1 {\n  g = [{\"n\": 0}, [0]]\n  g[0][\"n\"] += 5\n  g[1][0] = g[0][\"n\"] + i\n  p(g)\n}\np(a, m)\n",
+	"nested-literals-fail": "a = [[1, 2], [3]]\na[0][1] = a[0][1] + 40\na[1][0] = \"x\"\np(a)\nq = a[1][0] - 1\np(\"unreachable\")\n",
 	"lib":           "add_key(from_lib, \"lib\")\nb = 2\n",
 	"badrun":        "add_key(in_bad, 1)\nboom()\n",
 }
@@ -231,7 +234,7 @@ func c15Pool(seed int64) []c15Op {
 	var ops []c15Op
 	for _, name := range []string{"ok-simple", "ok-grok", "ok-loop", "ok-containers", "fail-mid-loop", "fail-type", "exit-early", "use-ok", "use-fail",
 		"void-after-val", "regs-full", "strfmt-print", "time", "xml-sql", "json", "rename-tag", "fail-nested-vars", "fail-in-use-branch", "reader", "reader-use",
-		"rename-onto-field", "rename-onto-tag", "rename-tag-onto-field", "rename-chain", "many-keys", "many-keys",
+		"nested-literals", "nested-literals", "nested-literals-fail", "rename-onto-field", "rename-onto-tag", "rename-tag-onto-field", "rename-chain", "many-keys", "many-keys",
 		"grok-alias-digits", "grok-alias-letters", "grok-alias-top", "grok-alias-loop", "grok-alias-inner", "grok-alias-shadow", "grok-global-only"} {
 		name := name
 		ops = append(ops, c15Op{"run:" + name, func(st *c15State) string { return c15RunV1(st, name, &drive.RunState{Budget: 20000}) }})
